@@ -921,6 +921,10 @@ theorem src_relax_improves {α : Type} [Field α] [LinearOrder α] [IsStrictOrde
     some (improves tent (some ex)) = relax_improves.num tent ex := by
   simp [improves, relax_improves, Rel.num]
 
+/-- A SYNTACTIC tie: in a linear order the running maximum is the same under `>` and `>=` (only which of two
+equal rows is kept differs, and they are equal), so the statement with `.ge` in place of `.gt` is also true — it
+is this proof script that stops checking when the extracted operator changes.  In `f64` the two differ only on
+NaN rows, which `Speed::from_str` refuses. -/
 theorem src_max_speed_fold {α : Type} [Field α] [LinearOrder α] [IsStrictOrderedRing α] [Lit α] [LawfulLit α] (table : List α) :
     Build.maxFold table =
       table.foldl (fun acc row => (if max_speed_fold.num acc.1 row = some true then acc.1 else row, acc.2 + 1))
